@@ -233,6 +233,65 @@ def run(ctx):
     ctx.attempt(_r1_labels)
     ctx.attempt(_r2_jacobian)
     ctx.attempt(_r3_hotspot)
+    ctx.attempt(_r4_shape_state)
+
+
+def _r4_shape_state(ctx):
+    """An attribute of the gradient accessor that several methods set to different values (the ansatz derivative of the
+    element type) is per-element-type state: every method that calls a reader of it must itself have called the writer for
+    its element type on every path before (dominance on the CFG).  A cached / conditional set-up lets the first element type
+    of a mixed mesh decide the ansatz functions of all later elements."""
+    from ..cfg import CFG
+    prog = ctx.prog
+    ctx.rule("R-C19-4", floor=2, what="per-element-type state is set by the matching writer on every path before each use")
+    ci = prog.cls("pylife.mesh.gradient:Gradient3D")
+    writers, readers = {}, {}
+    for name, fs in ci.methods.items():
+        f = fs[-1]
+        for n in ast.walk(f.node):
+            if isinstance(n, ast.Attribute) and isinstance(n.value, ast.Name) and n.value.id == "self":
+                if isinstance(n.ctx, ast.Store) and name != "__init__":
+                    writers.setdefault(n.attr, set()).add(name)
+                elif isinstance(n.ctx, ast.Load):
+                    readers.setdefault(n.attr, set()).add(name)
+    shared = {a: w for a, w in writers.items() if len(w) >= 2 and readers.get(a)}
+    if not shared:
+        raise AnalysisError("Gradient3D: no attribute with several writer methods found (ansatz derivative hand-over changed)")
+    n = 0
+    for attr, ws in sorted(shared.items()):
+        rs = readers[attr] - ws
+        for name, fs in ci.methods.items():
+            f = fs[-1]
+            if name in ws or name in rs:
+                continue
+            use = [c for c in calls_in(f.node) if isinstance(c.func, ast.Attribute) and is_self_attr(c.func) and c.func.attr in rs]
+            if not use:
+                continue
+            cfg = CFG(f.node)
+            wcalls = [c for c in calls_in(f.node) if isinstance(c.func, ast.Attribute) and is_self_attr(c.func) and c.func.attr in ws]
+            wnodes = {}
+            for c in wcalls:
+                st = c
+                while not isinstance(st, ast.stmt):
+                    st = st._parent
+                nd = cfg.node(st)
+                if nd is not None and isinstance(st, ast.Expr):
+                    wnodes[nd] = c.func.attr
+            for u in use:
+                st = u
+                while not isinstance(st, ast.stmt):
+                    st = st._parent
+                tgt = cfg.node(st)
+                n += 1
+                names = set(wnodes.values())
+                if tgt is not None and len(names) == 1 and cfg.must_pass(tgt, set(wnodes)):
+                    ctx.holds(f, st, "%s: every path to the use of %s (via %s) passes %s" % (name, attr, u.func.attr, next(iter(names))))
+                else:
+                    ctx.violated(f, st, "%s uses self.%s (via %s) but does not call its writer (%s) on every path before: with "
+                                 "elements of several types in one mesh the value left by another element type is used"
+                                 % (name, attr, u.func.attr, " / ".join(sorted(ws))), text="stale %s in %s" % (attr, name))
+    if n == 0:
+        raise AnalysisError("Gradient3D: no use of shared per-type state found")
 
 
 def _r1_labels(ctx):
@@ -557,6 +616,24 @@ HS = "src/pylife/mesh/hotspot.py"
 
 def variants():
     out = []
+
+    def init_once(tree):
+        f = find_func(tree, "Gradient3D._compute_gradient_simplex")
+        for i, st in enumerate(f.body):
+            if isinstance(st, ast.Expr) and "_initialize_ansatz_function_derivative_simplex" in ast.unparse(st):
+                f.body[i] = parse_stmt("if not hasattr(self, '_dphi_a_dxi_j'):\n    " + ast.unparse(st))
+                return True
+        return False
+    out.append(witness("simplex ansatz derivative set up only once per accessor", GR, init_once, "R-C19-4"))
+
+    def init_dropped(tree):
+        f = find_func(tree, "Gradient3D._compute_gradient_hexahedral")
+        for i, st in enumerate(f.body):
+            if isinstance(st, ast.Expr) and "_initialize_ansatz_function_derivative_hexahedral" in ast.unparse(st):
+                del f.body[i]
+                return True
+        return False
+    out.append(witness("hexahedral set-up call removed", GR, init_dropped, "R-C19-4"))
 
     def label_pos(tree):
         f = find_func(tree, "Gradient._calc_lst_sqr")
